@@ -2,10 +2,16 @@
 //! Runs the REAL ironbeam::testing assertions; `true` = returned, `false` = panicked.
 use ibv::{Emitter, SplitMix64, Tier, drive};
 use ironbeam::testing::{
-    assert_collections_equal, assert_collections_unordered_equal, assert_grouped_kv_equal,
-    assert_kv_collections_equal,
+    assert_all, assert_any, assert_collection_size, assert_collections_equal,
+    assert_collections_unordered_equal, assert_contains, assert_csv_equals,
+    assert_grouped_kv_equal, assert_jsonl_equals, assert_kv_collections_equal, assert_maps_equal,
+    assert_none, mock_csv_file, mock_jsonl_file,
 };
 use serde_json::{Value, json};
+use std::cell::Cell;
+use std::collections::HashMap;
+use std::fmt::Debug;
+use std::hash::{BuildHasher, Hash, Hasher};
 use std::panic::{AssertUnwindSafe, catch_unwind};
 
 /// an element type whose Hash is deliberately coarser than its Eq
@@ -17,6 +23,411 @@ impl std::hash::Hash for Coarse {
     }
 }
 
+impl PartialOrd for Coarse {
+    fn partial_cmp(&self, o: &Self) -> Option<std::cmp::Ordering> {
+        Some(self.cmp(o))
+    }
+}
+impl Ord for Coarse {
+    fn cmp(&self, o: &Self) -> std::cmp::Ordering {
+        self.0.cmp(&o.0)
+    }
+}
+
+/// Element types of the typed kinds. `mk(v, tag)`: equality / order / hash are those of `v`; the
+/// tag is different for every element of a case.
+trait Elt: Debug + Clone + Eq + Hash + Ord {
+    fn mk(v: i64, tag: i64) -> Self;
+}
+impl Elt for i64 {
+    fn mk(v: i64, _: i64) -> Self {
+        v
+    }
+}
+impl Elt for Coarse {
+    fn mk(v: i64, _: i64) -> Self {
+        Coarse(v)
+    }
+}
+/// Eq / Ord / Hash look at `v` only while Debug prints the tag too (Eq coarser than Debug)
+#[derive(Debug, Clone)]
+struct Tagged {
+    v: i64,
+    #[allow(dead_code)]
+    tag: i64,
+}
+impl PartialEq for Tagged {
+    fn eq(&self, o: &Self) -> bool {
+        self.v == o.v
+    }
+}
+impl Eq for Tagged {}
+impl Hash for Tagged {
+    fn hash<H: Hasher>(&self, state: &mut H) {
+        self.v.hash(state);
+    }
+}
+impl PartialOrd for Tagged {
+    fn partial_cmp(&self, o: &Self) -> Option<std::cmp::Ordering> {
+        Some(self.cmp(o))
+    }
+}
+impl Ord for Tagged {
+    fn cmp(&self, o: &Self) -> std::cmp::Ordering {
+        self.v.cmp(&o.v)
+    }
+}
+impl Elt for Tagged {
+    fn mk(v: i64, tag: i64) -> Self {
+        Tagged { v, tag }
+    }
+}
+/// Debug prints the same text for every value (Debug coarser than Eq)
+#[derive(Clone, PartialEq, Eq, PartialOrd, Ord, Hash)]
+struct Opaque(i64);
+impl Debug for Opaque {
+    fn fmt(&self, f: &mut std::fmt::Formatter<'_>) -> std::fmt::Result {
+        write!(f, "_")
+    }
+}
+impl Elt for Opaque {
+    fn mk(v: i64, _: i64) -> Self {
+        Opaque(v)
+    }
+}
+impl Elt for String {
+    fn mk(v: i64, _: i64) -> Self {
+        format!("s{v:07}")
+    }
+}
+/// every value has the same hash
+#[derive(Debug, Clone, PartialEq, Eq, PartialOrd, Ord)]
+struct Collide(i64);
+impl Hash for Collide {
+    fn hash<H: Hasher>(&self, state: &mut H) {
+        0u8.hash(state);
+    }
+}
+impl Elt for Collide {
+    fn mk(v: i64, _: i64) -> Self {
+        Collide(v)
+    }
+}
+/// PartialEq only, and not reflexive: a negative value is not equal to anything (like a NaN)
+#[derive(Debug, Clone)]
+struct Irr(i64);
+impl PartialEq for Irr {
+    fn eq(&self, o: &Self) -> bool {
+        self.0 >= 0 && self.0 == o.0
+    }
+}
+
+/// BuildHashers for the maps: every key in one bucket chain / two hash values only
+#[derive(Default, Clone)]
+struct ConstState;
+struct ConstHasher;
+impl Hasher for ConstHasher {
+    fn write(&mut self, _: &[u8]) {}
+    fn finish(&self) -> u64 {
+        0
+    }
+}
+impl BuildHasher for ConstState {
+    type Hasher = ConstHasher;
+    fn build_hasher(&self) -> ConstHasher {
+        ConstHasher
+    }
+}
+#[derive(Default, Clone)]
+struct LowBitState;
+struct LowBitHasher(u64);
+impl Hasher for LowBitHasher {
+    fn write(&mut self, b: &[u8]) {
+        for x in b {
+            self.0 = self.0.wrapping_add(*x as u64);
+        }
+    }
+    fn finish(&self) -> u64 {
+        self.0 & 1
+    }
+}
+impl BuildHasher for LowBitState {
+    type Hasher = LowBitHasher;
+    fn build_hasher(&self) -> LowBitHasher {
+        LowBitHasher(0)
+    }
+}
+
+macro_rules! by_ty {
+    ($tyid:expr, $f:ident, $($arg:expr),*) => {
+        match $tyid {
+            0 => $f::<i64>($($arg),*),
+            1 => $f::<Coarse>($($arg),*),
+            2 => $f::<Tagged>($($arg),*),
+            3 => $f::<Opaque>($($arg),*),
+            4 => $f::<String>($($arg),*),
+            5 => $f::<Collide>($($arg),*),
+            _ => json!(["invalid"]),
+        }
+    };
+}
+
+fn mk_vec<T: Elt>(vs: &[i64], side: i64) -> Vec<T> {
+    vs.iter().enumerate().map(|(i, &v)| T::mk(v, side * 1_000_000 + i as i64)).collect()
+}
+fn mk_kvs<T: Elt>(vs: &[(i64, i64)], side: i64) -> Vec<(T, T)> {
+    vs.iter()
+        .enumerate()
+        .map(|(i, &(k, v))| {
+            (T::mk(k, side * 1_000_000 + 2 * i as i64), T::mk(v, side * 1_000_000 + 2 * i as i64 + 1))
+        })
+        .collect()
+}
+fn mk_groups<T: Elt>(gs: &[(i64, Vec<i64>)], side: i64) -> Vec<(T, Vec<T>)> {
+    gs.iter()
+        .enumerate()
+        .map(|(i, (k, vs))| {
+            let base = side * 1_000_000 + 1000 * i as i64;
+            (T::mk(*k, base), vs.iter().enumerate().map(|(j, &v)| T::mk(v, base + 1 + j as i64)).collect())
+        })
+        .collect()
+}
+
+/// ordered (aid 0) / unordered (aid 1) assertion on typed elements
+fn seq_assert<T: Elt>(aid: i64, a: &[i64], b: &[i64]) -> Value {
+    let (a, b) = (mk_vec::<T>(a, 1), mk_vec::<T>(b, 2));
+    if aid == 0 {
+        accepts_v(|| assert_collections_equal(&a, &b))
+    } else {
+        accepts_v(|| assert_collections_unordered_equal(&a, &b))
+    }
+}
+fn seq_row<T: Elt>(aid: i64, a: &[i64], bs: &[Vec<i64>]) -> Value {
+    Value::Array(bs.iter().map(|b| seq_assert::<T>(aid, a, b)).collect())
+}
+fn kv_assert<T: Elt>(a: &[(i64, i64)], b: &[(i64, i64)]) -> Value {
+    let (a, b) = (mk_kvs::<T>(a, 1), mk_kvs::<T>(b, 2));
+    accepts_v(|| assert_kv_collections_equal(a.clone(), b.clone()))
+}
+fn grouped_assert<T: Elt>(a: &[(i64, Vec<i64>)], b: &[(i64, Vec<i64>)]) -> Value {
+    let (a, b) = (mk_groups::<T>(a, 1), mk_groups::<T>(b, 2));
+    accepts_v(|| assert_grouped_kv_equal(a.clone(), b.clone()))
+}
+fn contains_row<T: Elt>(l: &[i64], xs: &[i64]) -> Value {
+    let l = mk_vec::<T>(l, 1);
+    Value::Array(
+        xs.iter()
+            .map(|&x| {
+                let x = T::mk(x, 2_000_000);
+                accepts_v(|| assert_contains(&l, &x))
+            })
+            .collect(),
+    )
+}
+fn build_map<T: Elt, S: BuildHasher + Default>(ins: &[(i64, i64)], side: i64) -> HashMap<T, T, S> {
+    let mut m: HashMap<T, T, S> = HashMap::default();
+    for (k, v) in mk_kvs::<T>(ins, side) {
+        m.insert(k, v);
+    }
+    m
+}
+fn maps_row<T: Elt, S: BuildHasher + Default>(ia: &[(i64, i64)], ies: &[Vec<(i64, i64)>]) -> Value {
+    let a = build_map::<T, S>(ia, 1);
+    Value::Array(
+        ies.iter()
+            .map(|ie| {
+                let e = build_map::<T, S>(ie, 2);
+                accepts_v(|| assert_maps_equal(&a, &e))
+            })
+            .collect(),
+    )
+}
+fn maps_row_h<T: Elt>(hid: i64, ia: &[(i64, i64)], ies: &[Vec<(i64, i64)>]) -> Value {
+    match hid {
+        0 => maps_row::<T, std::collections::hash_map::RandomState>(ia, ies),
+        1 => maps_row::<T, ConstState>(ia, ies),
+        2 => maps_row::<T, LowBitState>(ia, ies),
+        _ => json!(["invalid"]),
+    }
+}
+
+/// assert_all (fid 0) / assert_any (1) / assert_none (2) on 0..n with the predicate `truth`;
+/// observed = [accepted, number of predicate calls]
+fn pred_run(fid: i64, n: usize, truth: &dyn Fn(usize) -> bool) -> Value {
+    let coll: Vec<i64> = (0..n as i64).collect();
+    let calls = Cell::new(0i64);
+    let p = |x: &i64| {
+        calls.set(calls.get() + 1);
+        truth(*x as usize)
+    };
+    let once = || {
+        calls.set(0);
+        let ok = catch_unwind(AssertUnwindSafe(|| match fid {
+            0 => assert_all(&coll, &p),
+            1 => assert_any(&coll, &p),
+            _ => assert_none(&coll, &p),
+        }))
+        .is_ok();
+        (ok, calls.get())
+    };
+    let r1 = once();
+    let r2 = once();
+    if r1 == r2 { json!([r1.0, r1.1]) } else { json!("unstable") }
+}
+
+/// -1 stands for usize::MAX (JSON integers stay below 2^62)
+fn usz(v: &Value) -> Option<usize> {
+    match v.as_i64()? {
+        -1 => Some(usize::MAX),
+        x if x >= 0 => Some(x as usize),
+        _ => None,
+    }
+}
+/// a Vec of n zero-sized elements without an n-step loop
+fn zst_vec(n: usize) -> Vec<()> {
+    let mut v: Vec<()> = Vec::new();
+    // SAFETY: () is zero-sized: the capacity of Vec<()> is usize::MAX and there is nothing to initialise
+    unsafe { v.set_len(n) };
+    v
+}
+
+// ---------- file-content assertions ----------
+#[derive(Clone, serde::Serialize, serde::Deserialize)]
+struct Rec {
+    id: i64,
+    name: String,
+}
+/// names are compared without regard to ASCII case (Eq coarser than the text in the file) ...
+impl PartialEq for Rec {
+    fn eq(&self, o: &Self) -> bool {
+        self.id == o.id && self.name.eq_ignore_ascii_case(&o.name)
+    }
+}
+/// ... and Debug does not show the name at all
+impl Debug for Rec {
+    fn fmt(&self, f: &mut std::fmt::Formatter<'_>) -> std::fmt::Result {
+        write!(f, "Rec#{}", self.id)
+    }
+}
+/// name table; index 2 equals index 1 under Rec's PartialEq; index 8 is longer than an I/O buffer
+fn name_of(i: i64) -> Option<String> {
+    Some(match i {
+        0 => String::new(),
+        1 => "a".into(),
+        2 => "A".into(),
+        3 => "b,c".into(),
+        4 => "q\"t".into(),
+        5 => "two\nlines".into(),
+        6 => " sp ".into(),
+        7 => "\u{fc}n\u{ef}".into(),
+        8 => "x".repeat(9000),
+        _ => return None,
+    })
+}
+fn rec_of(v: &Value) -> Option<Rec> {
+    let p = v.as_array()?;
+    if p.len() != 2 {
+        return None;
+    }
+    Some(Rec { id: p[0].as_i64()?, name: name_of(p[1].as_i64()?)? })
+}
+fn recs_of(v: &Value) -> Option<Vec<Rec>> {
+    v.as_array()?.iter().map(rec_of).collect()
+}
+fn csv_field(s: &str) -> String {
+    if s.contains([',', '"', '\n', '\r']) {
+        format!("\"{}\"", s.replace('"', "\"\""))
+    } else {
+        s.to_string()
+    }
+}
+/// text of one line descriptor: [id, name] record, -1 empty line, -2 blanks only, -3 malformed,
+/// -4 the csv header row
+fn render_line(fmt: i64, d: &Value) -> Option<String> {
+    if let Some(r) = rec_of(d) {
+        return Some(if fmt == 0 {
+            serde_json::to_string(&r).ok()?
+        } else {
+            format!("{},{}", r.id, csv_field(&r.name))
+        });
+    }
+    Some(match d.as_i64()? {
+        -1 => String::new(),
+        -2 => "   ".into(),
+        -3 => if fmt == 0 { "{".into() } else { "1,x,y".into() },
+        -4 => "id,name".into(),
+        _ => return None,
+    })
+}
+fn scratch_dir() -> &'static tempfile::TempDir {
+    static D: std::sync::OnceLock<tempfile::TempDir> = std::sync::OnceLock::new();
+    D.get_or_init(|| tempfile::tempdir().expect("tempdir"))
+}
+/// eol 0: "\n" after every line; 1: "\r\n"; 2: "\n" but nothing after the last line
+fn write_lines(fmt: i64, eol: i64, lines: &[String]) -> std::path::PathBuf {
+    static N: std::sync::atomic::AtomicU64 = std::sync::atomic::AtomicU64::new(0);
+    let n = N.fetch_add(1, std::sync::atomic::Ordering::Relaxed);
+    let path = scratch_dir().path().join(format!("f{n}.{}", if fmt == 0 { "jsonl" } else { "csv" }));
+    let mut text = String::new();
+    for (i, l) in lines.iter().enumerate() {
+        text.push_str(l);
+        if eol == 2 && i + 1 == lines.len() {
+            break;
+        }
+        text.push_str(if eol == 1 { "\r\n" } else { "\n" });
+    }
+    std::fs::write(&path, text).expect("write scratch file");
+    path
+}
+fn file_assert(fmt: i64, path: &std::path::Path, expected: &[Rec]) -> Value {
+    if fmt == 0 {
+        accepts_v(|| assert_jsonl_equals(path, expected))
+    } else {
+        accepts_v(|| assert_csv_equals(path, expected))
+    }
+}
+/// records i -> (i, i mod 8) (name 8, the long one, at i = 5 when `long_name`), and the expected
+/// list derived from them: mode 0 same, 1 id changed at pos, 2 name changed at pos, 3 last record
+/// dropped, 4 one record appended, 5 record at pos dropped, 6 record at pos duplicated
+fn long_data(n: usize) -> Vec<Rec> {
+    (0..n as i64).map(|i| Rec { id: i, name: name_of(i % 8).unwrap() }).collect()
+}
+fn long_expected(data: &[Rec], mode: i64, pos: usize) -> Option<Vec<Rec>> {
+    let mut e = data.to_vec();
+    match mode {
+        0 => {}
+        1 => e.get_mut(pos)?.id += 1_000_000,
+        2 => {
+            let r = e.get_mut(pos)?;
+            r.name = name_of((pos as i64 % 8 + 3) % 8).unwrap();
+        }
+        3 => {
+            e.pop()?;
+        }
+        4 => e.push(Rec { id: -5, name: "a".into() }),
+        5 => {
+            if pos >= e.len() {
+                return None;
+            }
+            e.remove(pos);
+        }
+        6 => {
+            let r = e.get(pos)?.clone();
+            e.insert(pos, r);
+        }
+        _ => return None,
+    }
+    Some(e)
+}
+
+/// `true` = the assertion returned, `false` = it panicked. Every assertion is a pure function of its
+/// arguments, so it is called twice; a second answer that differs from the first is reported as
+/// the string "unstable" (never agrees with the model).
+fn accepts_v(f: impl Fn()) -> Value {
+    let r1 = catch_unwind(AssertUnwindSafe(&f)).is_ok();
+    let r2 = catch_unwind(AssertUnwindSafe(&f)).is_ok();
+    if r1 == r2 { Value::Bool(r1) } else { json!("unstable") }
+}
 fn accepts(f: impl FnOnce()) -> bool {
     catch_unwind(AssertUnwindSafe(f)).is_ok()
 }
@@ -154,7 +565,497 @@ fn run(kind: &str, input: &Value) -> Value {
                 accepts(|| assert_collections_unordered_equal(&a, &b))
             })
         }
-        _ => json!(["bad-kind"]),
+        _ => run_more(kind, input).unwrap_or_else(|| json!(["invalid"])),
+    }
+}
+
+fn usize_of(v: &Value) -> Option<usize> {
+    v.as_u64().map(|x| x as usize)
+}
+fn ints_o(v: &Value) -> Option<Vec<i64>> {
+    v.as_array()?.iter().map(Value::as_i64).collect()
+}
+fn kvs_o(v: &Value) -> Option<Vec<(i64, i64)>> {
+    v.as_array()?
+        .iter()
+        .map(|p| {
+            let p = p.as_array()?;
+            if p.len() != 2 {
+                return None;
+            }
+            Some((p[0].as_i64()?, p[1].as_i64()?))
+        })
+        .collect()
+}
+fn groups_o(v: &Value) -> Option<Vec<(i64, Vec<i64>)>> {
+    v.as_array()?
+        .iter()
+        .map(|p| {
+            let p = p.as_array()?;
+            if p.len() != 2 {
+                return None;
+            }
+            Some((p[0].as_i64()?, ints_o(&p[1])?))
+        })
+        .collect()
+}
+fn kv_syms(klo: i64, khi: i64, vlo: i64, vhi: i64) -> Vec<(i64, i64)> {
+    (klo..khi).flat_map(|k| (vlo..vhi).map(move |v| (k, v))).collect()
+}
+/// the sizes every "long" family sweeps: around every power of two and a few others
+fn sizes_upto(max: usize) -> Vec<usize> {
+    let mut v = vec![0usize, 1, 2, 3, 4, 5, 7, 8, 9, 15, 16, 17, 20, 31, 32, 33, 63, 64, 65, 100];
+    let mut p = 128usize;
+    while p <= 65536 {
+        v.extend([p - 1, p, p + 1]);
+        p *= 2;
+    }
+    v.retain(|&n| n <= max);
+    v
+}
+/// positions worth flipping in a sequence of length n: both ends and the neighbourhood of every
+/// power of two / multiple of 64 boundary that a block-wise rewrite could mishandle
+fn boundary_positions(n: usize, budget: usize) -> Vec<usize> {
+    let mut v: Vec<usize> = vec![0, 1, 2, n.wrapping_sub(1), n.wrapping_sub(2), n.wrapping_sub(3), n / 2];
+    let mut p = 2usize;
+    while p <= n {
+        v.extend([p - 1, p, p + 1, n - p, (n - p).wrapping_sub(1)]);
+        p *= 2;
+    }
+    for c in [3usize, 5, 7, 10, 12, 24, 48, 65, 96, 100, 129, 192, 194, 1000] {
+        v.push(c);
+    }
+    v.retain(|&x| x < n);
+    v.sort_unstable();
+    v.dedup();
+    if v.len() > budget {
+        // keep both ends and an even spread of the rest
+        let step = v.len() as f64 / budget as f64;
+        let mut w: Vec<usize> = (0..budget).map(|i| v[(i as f64 * step) as usize]).collect();
+        w.push(*v.last().unwrap());
+        w.dedup();
+        v = w;
+    }
+    v
+}
+
+/// kv rows / groups of the long keyed cases and their modified, reversed copies
+fn long_kv(n: usize, nk: i64) -> Vec<(i64, i64)> {
+    (0..n as i64).map(|i| (i % nk, i % 3)).collect()
+}
+fn long_kv_b(a: &[(i64, i64)], nk: i64, mode: i64, pos: usize) -> Option<Vec<(i64, i64)>> {
+    let mut b = a.to_vec();
+    match mode {
+        0 => {}
+        1 => {
+            let r = b.get_mut(pos)?;
+            r.1 = (r.1 + 1) % 3;
+        }
+        2 => {
+            let r = b.get_mut(pos)?;
+            r.0 = (r.0 + 1) % nk;
+        }
+        3 => {
+            b.pop()?;
+        }
+        4 => {
+            let n = b.len();
+            let r = *b.get(pos)?;
+            b[(pos + 1) % n] = r;
+        }
+        _ => return None,
+    }
+    b.reverse();
+    Some(b)
+}
+fn long_groups(n: usize) -> Vec<(i64, Vec<i64>)> {
+    (0..n as i64).map(|i| (i, (0..i % 4).map(|j| (i + j) % 3).collect())).collect()
+}
+fn long_groups_b(a: &[(i64, Vec<i64>)], mode: i64, pos: usize) -> Option<Vec<(i64, Vec<i64>)>> {
+    let mut b = a.to_vec();
+    let n = b.len() as i64;
+    match mode {
+        0 => {}
+        1 => {
+            let g = b.get_mut(pos)?;
+            if g.1.is_empty() {
+                g.1.push(0);
+            } else {
+                g.1[0] = (g.1[0] + 1) % 3;
+            }
+        }
+        2 => b.get_mut(pos)?.0 = n + pos as i64,
+        3 => {
+            b.pop()?;
+        }
+        4 => b.get_mut(pos)?.1.push(1),
+        _ => return None,
+    }
+    b.reverse();
+    for g in &mut b {
+        g.1.reverse();
+    }
+    Some(b)
+}
+/// maps of the long cases: actual = {i -> i mod 7 | i < n} inserted in ascending order; expected is
+/// inserted in descending order and differs by: 0 nothing, 1 value of key pos, 2 key pos replaced
+/// by key n+5, 3 key pos missing, 4 extra key n+5, 5 (mirror of 2) ACTUAL has key pos replaced
+fn long_map_ins(n: usize, mode: i64, pos: usize) -> Option<(Vec<(i64, i64)>, Vec<(i64, i64)>)> {
+    let mut a: Vec<(i64, i64)> = (0..n as i64).map(|i| (i, i % 7)).collect();
+    let mut e = a.clone();
+    let fresh = n as i64 + 5;
+    match mode {
+        0 => {}
+        1 => e.get_mut(pos)?.1 += 1,
+        2 => e.get_mut(pos)?.0 = fresh,
+        3 => {
+            if pos >= e.len() {
+                return None;
+            }
+            e.remove(pos);
+        }
+        4 => e.push((fresh, 0)),
+        5 => a.get_mut(pos)?.0 = fresh,
+        _ => return None,
+    }
+    e.reverse();
+    Some((a, e))
+}
+
+fn bits(v: impl Iterator<Item = Value>) -> Option<Value> {
+    Some(Value::Array(v.collect()))
+}
+
+fn run_more(kind: &str, input: &Value) -> Option<Value> {
+    let inp = input.as_array()?;
+    match kind {
+        // typed elements: in = [aid, tyid, a, nsym, maxlen]
+        "rowt" => {
+            let (aid, tyid) = (inp.first()?.as_i64()?, inp.get(1)?.as_i64()?);
+            let a = ints_o(inp.get(2)?)?;
+            let syms: Vec<i64> = (0..inp.get(3)?.as_i64()?).collect();
+            let bs = all_seqs(&syms, usize_of(inp.get(4)?)?.min(5));
+            Some(by_ty!(tyid, seq_row, aid, &a, &bs))
+        }
+        // in = [aid, tyid, a, b]; aid 0 ordered, 1 unordered, 2 key-sorted rows, 3 grouped
+        "pairt" => {
+            let (aid, tyid) = (inp.first()?.as_i64()?, inp.get(1)?.as_i64()?);
+            match aid {
+                0 | 1 => {
+                    let (a, b) = (ints_o(inp.get(2)?)?, ints_o(inp.get(3)?)?);
+                    Some(by_ty!(tyid, seq_assert, aid, &a, &b))
+                }
+                2 => {
+                    let (a, b) = (kvs_o(inp.get(2)?)?, kvs_o(inp.get(3)?)?);
+                    Some(by_ty!(tyid, kv_assert, &a, &b))
+                }
+                3 => {
+                    let (a, b) = (groups_o(inp.get(2)?)?, groups_o(inp.get(3)?)?);
+                    Some(by_ty!(tyid, grouped_assert, &a, &b))
+                }
+                _ => None,
+            }
+        }
+        // in = [aid, n, [diffs...]]: a[i] = i mod 5; b = a except (a[i]+1) mod 5 at the positions of one
+        // diff set; one accept bit per diff set
+        "longs" => {
+            let aid = inp.first()?.as_i64()?;
+            let n = usize_of(inp.get(1)?)?;
+            if n > 70_000 {
+                return None;
+            }
+            let a: Vec<i64> = (0..n as i64).map(|i| i % 5).collect();
+            bits(inp.get(2)?.as_array()?.iter().map(|d| {
+                let mut b = a.clone();
+                for p in ints_o(d).unwrap_or_default() {
+                    if let Some(x) = b.get_mut(p as usize) {
+                        *x = (*x + 1) % 5;
+                    }
+                }
+                if aid == 0 {
+                    accepts_v(|| assert_collections_equal(&a, &b))
+                } else {
+                    accepts_v(|| assert_collections_unordered_equal(&a, &b))
+                }
+            }))
+        }
+        // in = [aid, n, nk, [[mode, pos]...]] (aid 2: key-sorted rows, 3: grouped; see long_kv_b / long_groups_b)
+        "longkv" => {
+            let aid = inp.first()?.as_i64()?;
+            let n = usize_of(inp.get(1)?)?;
+            let nk = inp.get(2)?.as_i64()?;
+            if n > 5000 || nk < 1 {
+                return None;
+            }
+            let sets = inp.get(3)?.as_array()?;
+            let mut out = Vec::new();
+            for s in sets {
+                let (mode, pos) = (s.get(0)?.as_i64()?, usize_of(s.get(1)?)?);
+                if aid == 2 {
+                    let a = long_kv(n, nk);
+                    let b = long_kv_b(&a, nk, mode, pos)?;
+                    out.push(accepts_v(|| assert_kv_collections_equal(a.clone(), b.clone())));
+                } else {
+                    let a = long_groups(n);
+                    let b = long_groups_b(&a, mode, pos)?;
+                    out.push(accepts_v(|| assert_grouped_kv_equal(a.clone(), b.clone())));
+                }
+            }
+            Some(Value::Array(out))
+        }
+        // in = [tyid, l, [x...]]: one accept bit of assert_contains(l, x) per x
+        "containsrow" => {
+            let tyid = inp.first()?.as_i64()?;
+            let (l, xs) = (ints_o(inp.get(1)?)?, ints_o(inp.get(2)?)?);
+            Some(by_ty!(tyid, contains_row, &l, &xs))
+        }
+        // in = [n, [pos...]]: l[i] = i mod 5 except l[pos] = 7 (pos = -1: nowhere); looking for 7
+        "containslong" => {
+            let n = usize_of(inp.first()?)?;
+            if n > 70_000 {
+                return None;
+            }
+            bits(ints_o(inp.get(1)?)?.into_iter().map(|pos| {
+                let mut l: Vec<i64> = (0..n as i64).map(|i| i % 5).collect();
+                if pos >= 0 {
+                    if let Some(x) = l.get_mut(pos as usize) {
+                        *x = 7;
+                    }
+                }
+                accepts_v(|| assert_contains(&l, &7))
+            }))
+        }
+        // in = [fid, len]: every truth vector of that length (first element slowest) -> [ok, calls]
+        "predrow" => {
+            let (fid, len) = (inp.first()?.as_i64()?, usize_of(inp.get(1)?)?);
+            if len > 10 {
+                return None;
+            }
+            bits((0..1usize << len).map(|m| pred_run(fid, len, &|i| (m >> (len - 1 - i)) & 1 == 1)))
+        }
+        // in = [fid, n, base, [flips...]]: truth(i) = base xor (i in flips) -> [ok, calls] per flip set
+        "predlong" => {
+            let (fid, n, base) = (inp.first()?.as_i64()?, usize_of(inp.get(1)?)?, inp.get(2)?.as_i64()? == 1);
+            if n > 70_000 {
+                return None;
+            }
+            bits(inp.get(3)?.as_array()?.iter().map(|f| {
+                let flips = ints_o(f).unwrap_or_default();
+                pred_run(fid, n, &|i| base ^ flips.contains(&(i as i64)))
+            }))
+        }
+        // in = [n, zst, [m...]]: assert_collection_size(&v, m) with |v| = n (zst = 1: Vec<()>; -1 = usize::MAX)
+        "sizerow" => {
+            let n = usz(inp.first()?)?;
+            let zst = inp.get(1)?.as_i64()? == 1;
+            let ms = inp.get(2)?.as_array()?;
+            if zst {
+                let v = zst_vec(n);
+                bits(ms.iter().map(|m| match usz(m) {
+                    Some(m) => accepts_v(|| assert_collection_size(&v, m)),
+                    None => json!("invalid"),
+                }))
+            } else {
+                if n > 70_000 {
+                    return None;
+                }
+                let v = vec![7u8; n];
+                bits(ms.iter().map(|m| match usz(m) {
+                    Some(m) => accepts_v(|| assert_collection_size(&v, m)),
+                    None => json!("invalid"),
+                }))
+            }
+        }
+        // in = [aid, n, [m...]]: n and m zero-sized elements (ordered: any sizes as long as the element
+        // walk stays short; unordered walks both sides before the length check)
+        "zstrow" => {
+            let aid = inp.first()?.as_i64()?;
+            let n = usz(inp.get(1)?)?;
+            let ms: Vec<usize> = inp.get(2)?.as_array()?.iter().map(usz).collect::<Option<_>>()?;
+            // a failing assertion formats both collections into its panic message, so the lengths
+            // have to stay moderate here (assert_collection_size, kind "sizerow", has no such limit)
+            let cap = 1usize << 17;
+            if n > cap || ms.iter().any(|&m| m > cap) {
+                return None;
+            }
+            let a = zst_vec(n);
+            bits(ms.iter().map(|&m| {
+                let b = zst_vec(m);
+                if aid == 0 {
+                    accepts_v(|| assert_collections_equal(&a, &b))
+                } else {
+                    accepts_v(|| assert_collections_unordered_equal(&a, &b))
+                }
+            }))
+        }
+        // maps are given by their insertion sequences (a later insert under the same key overwrites)
+        // in = [hid, tyid, ia, nk, nv, maxlen]: one bit per ie over the symbols (k, v), k-major
+        "maprow" => {
+            let (hid, tyid) = (inp.first()?.as_i64()?, inp.get(1)?.as_i64()?);
+            let ia = kvs_o(inp.get(2)?)?;
+            let syms = kv_syms(0, inp.get(3)?.as_i64()?.min(4), 0, inp.get(4)?.as_i64()?.min(4));
+            let ies = all_seqs(&syms, usize_of(inp.get(5)?)?.min(4));
+            Some(by_ty!(tyid, maps_row_h, hid, &ia, &ies))
+        }
+        // in = [hid, tyid, ia, ie]
+        "mappair" => {
+            let (hid, tyid) = (inp.first()?.as_i64()?, inp.get(1)?.as_i64()?);
+            let (ia, ie) = (kvs_o(inp.get(2)?)?, kvs_o(inp.get(3)?)?);
+            let r = by_ty!(tyid, maps_row_h, hid, &ia, std::slice::from_ref(&ie));
+            Some(r.get(0).cloned().unwrap_or(r))
+        }
+        // in = [hid, tyid, n, [[mode, pos]...]] (see long_map_ins)
+        "maplong" => {
+            let (hid, tyid) = (inp.first()?.as_i64()?, inp.get(1)?.as_i64()?);
+            let n = usize_of(inp.get(2)?)?;
+            if n > 5000 {
+                return None;
+            }
+            let mut out = Vec::new();
+            for s in inp.get(3)?.as_array()? {
+                let (ia, ie) = long_map_ins(n, s.get(0)?.as_i64()?, usize_of(s.get(1)?)?)?;
+                let r = by_ty!(tyid, maps_row_h, hid, &ia, std::slice::from_ref(&ie));
+                out.push(r.get(0).cloned().unwrap_or(r));
+            }
+            Some(Value::Array(out))
+        }
+        // elements with a PartialEq that is not reflexive (negative values equal nothing)
+        // in = [aid, a, maxlen]: 0 ordered (b over -1..=1), 2 key-sorted rows with such values (b over
+        // 2 keys x -1..=1), 4 contains (x in -1..=1), 5 maps with such values (ie over 2 keys x -1..=1)
+        "rown" => {
+            let aid = inp.first()?.as_i64()?;
+            let maxlen = usize_of(inp.get(2)?)?.min(4);
+            match aid {
+                0 => {
+                    let a: Vec<Irr> = ints_o(inp.get(1)?)?.into_iter().map(Irr).collect();
+                    bits(all_seqs(&[-1i64, 0, 1], maxlen).into_iter().map(|b| {
+                        let b: Vec<Irr> = b.into_iter().map(Irr).collect();
+                        accepts_v(|| assert_collections_equal(&a, &b))
+                    }))
+                }
+                2 => {
+                    let a: Vec<(i64, Irr)> = kvs_o(inp.get(1)?)?.into_iter().map(|(k, v)| (k, Irr(v))).collect();
+                    bits(all_seqs(&kv_syms(0, 2, -1, 2), maxlen).into_iter().map(|b| {
+                        let b: Vec<(i64, Irr)> = b.into_iter().map(|(k, v)| (k, Irr(v))).collect();
+                        accepts_v(|| assert_kv_collections_equal(a.clone(), b.clone()))
+                    }))
+                }
+                4 => {
+                    let a: Vec<Irr> = ints_o(inp.get(1)?)?.into_iter().map(Irr).collect();
+                    bits([-1i64, 0, 1].into_iter().map(|x| accepts_v(|| assert_contains(&a, &Irr(x)))))
+                }
+                5 => {
+                    let a: HashMap<i64, Irr> = kvs_o(inp.get(1)?)?.into_iter().map(|(k, v)| (k, Irr(v))).collect();
+                    bits(all_seqs(&kv_syms(0, 2, -1, 2), maxlen).into_iter().map(|ie| {
+                        let e: HashMap<i64, Irr> = ie.into_iter().map(|(k, v)| (k, Irr(v))).collect();
+                        accepts_v(|| assert_maps_equal(&a, &e))
+                    }))
+                }
+                _ => None,
+            }
+        }
+        // in = [aid, a]: the SAME object on both sides (0 ordered, 2 key-sorted rows, 5 maps), Irr values
+        "selfn" => {
+            let aid = inp.first()?.as_i64()?;
+            match aid {
+                0 => {
+                    let a: Vec<Irr> = ints_o(inp.get(1)?)?.into_iter().map(Irr).collect();
+                    Some(accepts_v(|| assert_collections_equal(&a, &a)))
+                }
+                2 => {
+                    let a: Vec<(i64, Irr)> = kvs_o(inp.get(1)?)?.into_iter().map(|(k, v)| (k, Irr(v))).collect();
+                    Some(accepts_v(|| assert_kv_collections_equal(a.clone(), a.clone())))
+                }
+                5 => {
+                    let a: HashMap<i64, Irr> = kvs_o(inp.get(1)?)?.into_iter().map(|(k, v)| (k, Irr(v))).collect();
+                    Some(accepts_v(|| assert_maps_equal(&a, &a)))
+                }
+                _ => None,
+            }
+        }
+        // files. in = [fmt, eol, lines, esyms, maxlen]: one bit per expected sequence over esyms
+        "filerow" => {
+            let (fmt, eol) = (inp.first()?.as_i64()?, inp.get(1)?.as_i64()?);
+            let lines: Vec<String> =
+                inp.get(2)?.as_array()?.iter().map(|d| render_line(fmt, d)).collect::<Option<_>>()?;
+            let esyms = recs_of(inp.get(3)?)?;
+            let path = write_lines(fmt, eol, &lines);
+            let r = bits(
+                all_seqs(&esyms, usize_of(inp.get(4)?)?.min(4)).iter().map(|e| file_assert(fmt, &path, e)),
+            );
+            let _ = std::fs::remove_file(&path);
+            r
+        }
+        // in = [fmt, eol, lines, expected]
+        "filepair" => {
+            let (fmt, eol) = (inp.first()?.as_i64()?, inp.get(1)?.as_i64()?);
+            let lines: Vec<String> =
+                inp.get(2)?.as_array()?.iter().map(|d| render_line(fmt, d)).collect::<Option<_>>()?;
+            let expected = recs_of(inp.get(3)?)?;
+            let path = write_lines(fmt, eol, &lines);
+            let r = file_assert(fmt, &path, &expected);
+            let _ = std::fs::remove_file(&path);
+            Some(r)
+        }
+        // the file is written by the real mock_jsonl_file / mock_csv_file(data, with_header)
+        // in = [fmt, with_header, data, esyms, maxlen]
+        "mockrow" => {
+            let (fmt, wh) = (inp.first()?.as_i64()?, inp.get(1)?.as_i64()? == 1);
+            let data = recs_of(inp.get(2)?)?;
+            let esyms = recs_of(inp.get(3)?)?;
+            let tmp = if fmt == 0 { mock_jsonl_file(&data).ok()? } else { mock_csv_file(&data, wh).ok()? };
+            bits(
+                all_seqs(&esyms, usize_of(inp.get(4)?)?.min(4)).iter().map(|e| file_assert(fmt, tmp.path(), e)),
+            )
+        }
+        // in = [fmt, eol, n, bl, via_mock, [[mode, pos]...]]: records (i, i mod 8), i < n; via_mock = 1: written
+        // by mock_*_file, else by hand with an empty line before record i whenever i mod bl = bl - 1
+        "filelong" => {
+            let (fmt, eol) = (inp.first()?.as_i64()?, inp.get(1)?.as_i64()?);
+            let n = usize_of(inp.get(2)?)?;
+            let bl = usize_of(inp.get(3)?)?;
+            let via_mock = inp.get(4)?.as_i64()? == 1;
+            if n > 70_000 {
+                return None;
+            }
+            let data = long_data(n);
+            let mut keep = None;
+            let path = if via_mock {
+                let t = if fmt == 0 { mock_jsonl_file(&data).ok()? } else { mock_csv_file(&data, true).ok()? };
+                let p = t.path().to_path_buf();
+                keep = Some(t);
+                p
+            } else {
+                let mut lines = Vec::new();
+                if fmt == 1 {
+                    lines.push("id,name".to_string());
+                }
+                for (i, r) in data.iter().enumerate() {
+                    if bl > 0 && i % bl == bl - 1 {
+                        lines.push(String::new());
+                    }
+                    lines.push(render_line(fmt, &json!([r.id, i as i64 % 8]))?);
+                }
+                write_lines(fmt, eol, &lines)
+            };
+            let mut out = Vec::new();
+            for s in inp.get(5)?.as_array()? {
+                let e = long_expected(&data, s.get(0)?.as_i64()?, usize_of(s.get(1)?)?)?;
+                out.push(file_assert(fmt, &path, &e));
+            }
+            if keep.is_none() {
+                let _ = std::fs::remove_file(&path);
+            }
+            drop(keep);
+            Some(Value::Array(out))
+        }
+        // in = [fmt]: the file does not exist
+        "nofile" => {
+            let fmt = inp.first()?.as_i64()?;
+            let path = scratch_dir().path().join("does-not-exist");
+            Some(file_assert(fmt, &path, &[]))
+        }
+        _ => None,
     }
 }
 
@@ -243,6 +1144,8 @@ fn generate(seed: u64, tier: Tier, em: &mut Emitter) {
         }
     }
 
+    generate_more(seed, tier, em);
+
     // 2. random longer pairs: b is a (mostly) small mutation of a permutation of a
     let mut rng = SplitMix64::new(seed ^ 0xC20);
     let n = if tier == Tier::Thorough { 20000 } else { 1500 };
@@ -295,6 +1198,299 @@ fn generate(seed: u64, tier: Tier, em: &mut Emitter) {
                 let jb: Vec<Value> = b.iter().map(|(k, vs)| json!([k, vs])).collect();
                 em.case("pair", json!([aid, ja, jb]), !a.is_empty(), &["random"]);
             }
+        }
+    }
+}
+
+/// every further public assertion of ironbeam::testing, typed elements, sizes across the powers of two
+fn generate_more(seed: u64, tier: Tier, em: &mut Emitter) {
+    let thorough = tier == Tier::Thorough;
+    let mut rng = SplitMix64::new(seed ^ 0xC20_0002);
+    let syms3: Vec<i64> = (0..3).collect();
+
+    // 3a. ordered / unordered on every element type: exhaustive rows
+    for aid in 0..2 {
+        for tyid in 1..=5 {
+            for a in all_seqs(&syms3, 3) {
+                em.case("rowt", json!([aid, tyid, a, 3, 3]), a.len() >= 2, &["exhaustive", "typed"]);
+            }
+        }
+    }
+
+    // 3b. sizes across the powers of two, differences at block boundaries
+    for aid in 0..2 {
+        for n in sizes_upto(65537) {
+            if n == 0 {
+                continue;
+            }
+            let budget = if n > 5000 { 4 } else { 20 };
+            let pos = boundary_positions(n, budget);
+            let mut sets: Vec<Vec<usize>> = vec![vec![]];
+            sets.extend(pos.iter().map(|&p| vec![p]));
+            if n >= 4 {
+                // two positions whose changes keep the multiset (i and i+5k carry the same symbol; the
+                // ordered assertion must still reject, the unordered one must reject too since both move up)
+                sets.push(vec![0, n - 1]);
+                sets.push(vec![n / 2, n / 2 + 1]);
+            }
+            em.case("longs", json!([aid, n, sets]), n >= 2, &["long"]);
+        }
+    }
+    for aid in 2..4 {
+        let max = if thorough { 4097 } else { 1025 };
+        for n in sizes_upto(max) {
+            if n == 0 {
+                continue;
+            }
+            let nk = [1i64, 2, 5, 64, n as i64][n % 5].max(1);
+            let mut sets: Vec<(i64, usize)> = vec![(0, 0), (3, 0)];
+            for p in boundary_positions(n, if n > 600 { 1 } else { 6 }) {
+                for mode in [1, 2, 4] {
+                    sets.push((mode, p));
+                }
+            }
+            let sets: Vec<Value> = sets.iter().map(|(m, p)| json!([m, p])).collect();
+            em.case("longkv", json!([aid, n, nk, sets]), n >= 2, &["long"]);
+        }
+    }
+    if !thorough {
+        // one big keyed case each in the quick tier
+        em.case("longkv", json!([2, 4096, 5, [[0, 0], [4, 64]]]), true, &["long"]);
+        em.case("longkv", json!([3, 2049, 1, [[0, 0], [1, 2048]]]), true, &["long"]);
+    }
+
+    // 4. assert_contains: exhaustive rows on every element type, then long slices
+    for tyid in 0..=5 {
+        for l in all_seqs(&syms3, if tyid == 0 { 4 } else { 3 }) {
+            em.case("containsrow", json!([tyid, l, [0, 1, 2, 3]]), l.len() >= 2, &["exhaustive", "contains"]);
+        }
+    }
+    for n in sizes_upto(65537) {
+        let mut pos: Vec<i64> = vec![-1];
+        pos.extend(boundary_positions(n, if n > 5000 { 12 } else { 40 }).iter().map(|&p| p as i64));
+        em.case("containslong", json!([n, pos]), n >= 2, &["long", "contains"]);
+    }
+
+    // 5. assert_all / assert_any / assert_none: every truth vector up to length 9, then long ones
+    for fid in 0..3 {
+        for len in 0..=(if thorough { 10 } else { 9 }) {
+            em.case("predrow", json!([fid, len]), len >= 2, &["exhaustive", "pred"]);
+        }
+        for n in sizes_upto(65537) {
+            if n == 0 {
+                continue;
+            }
+            for base in 0..2 {
+                let mut sets: Vec<Vec<usize>> = vec![vec![]];
+                sets.extend(boundary_positions(n, if n > 5000 { 6 } else { 16 }).iter().map(|&p| vec![p]));
+                if n >= 3 {
+                    sets.push(vec![n / 2, n - 1]);
+                }
+                em.case("predlong", json!([fid, n, base, sets]), n >= 2, &["long", "pred"]);
+            }
+        }
+    }
+
+    // 6. assert_collection_size: lengths and expected sizes around every truncation boundary
+    let big: Vec<i64> = vec![
+        0, 1, 2, 3, 4, 7, 8, 15, 16, 17, 20, 31, 32, 33, 63, 64, 65, 127, 128, 129, 255, 256, 257, 511, 512, 513,
+        1023, 1024, 1025, 4095, 4096, 4097, 65535, 65536, 65537, (1 << 31) - 1, 1 << 31, (1 << 31) + 1,
+        (1 << 32) - 1, 1 << 32, (1 << 32) + 1, (1 << 32) + 256, (1 << 62) - 1, -1,
+    ];
+    for &n in &big {
+        let mut ms: Vec<i64> = vec![n, 0, 1];
+        if n >= 0 {
+            ms.extend([n - 1, n + 1, n % 256, n % 65536, n % (1 << 32), n + 256, n + 65536, n + (1 << 32), -1]);
+            ms.push(n & 0x7fff_ffff);
+        } else {
+            ms.extend([(1 << 32) - 1, (1 << 62) - 1, 255, 65535]);
+        }
+        ms.retain(|&m| m >= -1 && m < (1 << 62));
+        ms.dedup();
+        em.case("sizerow", json!([n, 1, ms]), true, &["size"]);
+        if (0..=65537).contains(&n) {
+            em.case("sizerow", json!([n, 0, ms]), true, &["size"]);
+        }
+        // ordered / unordered assertion on zero-sized elements of these lengths
+        if (0..=65537).contains(&n) {
+            let ms1: Vec<i64> = ms.iter().copied().filter(|m| (0..=70_000).contains(m)).collect();
+            em.case("zstrow", json!([0, n, ms1]), true, &["zst"]);
+            em.case("zstrow", json!([1, n, ms1]), true, &["zst"]);
+        }
+    }
+
+    // 7. assert_maps_equal: exhaustive pairs of insertion sequences (3 keys x 2 values, length <= 3),
+    // under three hashers and element types; random longer ones; sizes across the resize thresholds
+    let msyms = kv_syms(0, 3, 0, 2);
+    for (hid, tyid) in [(0, 0), (1, 2), (2, 3)] {
+        for ia in all_seqs(&msyms, 3) {
+            let ja: Vec<Value> = ia.iter().map(|(k, v)| json!([k, v])).collect();
+            em.case("maprow", json!([hid, tyid, ja, 3, 2, 3]), !ia.is_empty(), &["exhaustive", "maps"]);
+        }
+    }
+    for _ in 0..(if thorough { 6000 } else { 500 }) {
+        let (hid, tyid) = (rng.below(3) as i64, rng.below(6) as i64);
+        let len = rng.below(13) as usize;
+        let ia: Vec<(i64, i64)> = (0..len).map(|_| (rng.range(0, 5), rng.range(0, 2))).collect();
+        let mut ie = ia.clone();
+        shuffle(&mut rng, &mut ie);
+        let how = rng.below(5);
+        if how == 4 {
+            if !ie.is_empty() {
+                let i = rng.below(ie.len() as u64) as usize;
+                ie.remove(i);
+            }
+        } else {
+            mutate_vec(&mut rng, &mut ie, how, |r| (r.range(0, 6), r.range(0, 2)));
+        }
+        let ja: Vec<Value> = ia.iter().map(|(k, v)| json!([k, v])).collect();
+        let je: Vec<Value> = ie.iter().map(|(k, v)| json!([k, v])).collect();
+        em.case("mappair", json!([hid, tyid, ja, je]), len >= 2, &["random", "maps"]);
+    }
+    let map_sizes: Vec<usize> = {
+        let mut v = vec![1usize, 2, 3, 4, 5, 7, 8, 9, 14, 15, 16, 17, 28, 29, 32, 33, 56, 57, 64, 65, 100];
+        for p in [128usize, 256, 512, 1024] {
+            v.extend([p * 7 / 8, p * 7 / 8 + 1, p - 1, p, p + 1]);
+        }
+        if thorough {
+            for p in [2048usize, 4096] {
+                v.extend([p * 7 / 8, p * 7 / 8 + 1, p - 1, p, p + 1]);
+            }
+        } else {
+            v.extend([1792, 1793]);
+        }
+        v
+    };
+    for (i, &n) in map_sizes.iter().enumerate() {
+        let (hid, tyid) = if n > 300 { (0, [0i64, 2, 4][i % 3]) } else { ([0i64, 1, 2][i % 3], [0i64, 2, 3, 4, 5][i % 5]) };
+        let mut sets: Vec<(i64, usize)> = vec![(0, 0), (4, 0)];
+        let ps: Vec<usize> = if n > 300 { vec![n - 1] } else { vec![0, n / 2, n - 1] };
+        for &p in &ps {
+            for mode in [1, 2, 3, 5] {
+                sets.push((mode, p));
+            }
+        }
+        let sets: Vec<Value> = sets.iter().map(|(m, p)| json!([m, p])).collect();
+        em.case("maplong", json!([hid, tyid, n, sets]), n >= 2, &["long", "maps"]);
+    }
+
+    // 8. PartialEq that is not reflexive (the ordered / key-sorted / contains / maps assertions only ask
+    // for PartialEq), also with the very same object on both sides
+    let nsyms = [-1i64, 0, 1];
+    for a in all_seqs(&nsyms, 3) {
+        em.case("rown", json!([0, a, 3]), a.len() >= 2, &["exhaustive", "irreflexive"]);
+        em.case("rown", json!([4, a, 3]), a.len() >= 2, &["exhaustive", "irreflexive"]);
+        em.case("selfn", json!([0, a]), !a.is_empty(), &["alias", "irreflexive"]);
+    }
+    for a in all_seqs(&kv_syms(0, 2, -1, 2), 2) {
+        let ja: Vec<Value> = a.iter().map(|(k, v)| json!([k, v])).collect();
+        em.case("rown", json!([2, ja, 2]), !a.is_empty(), &["exhaustive", "irreflexive"]);
+        em.case("rown", json!([5, ja, 2]), !a.is_empty(), &["exhaustive", "irreflexive"]);
+        em.case("selfn", json!([2, ja]), !a.is_empty(), &["alias", "irreflexive"]);
+        em.case("selfn", json!([5, ja]), !a.is_empty(), &["alias", "irreflexive"]);
+    }
+
+    // 9. file-content assertions: every file of <= 3 lines over 7 kinds of line against every expected
+    // list of <= 3 records; files written by mock_*_file; long files
+    let lsyms: Vec<Value> =
+        vec![json!([0, 1]), json!([0, 2]), json!([1, 3]), json!(-1), json!(-2), json!(-3), json!(-4)];
+    let esyms = json!([[0, 1], [1, 3]]);
+    for fmt in 0..2 {
+        em.case("nofile", json!([fmt]), true, &["files"]);
+        for (i, lines) in all_seqs(&lsyms, 3).into_iter().enumerate() {
+            let nt = !lines.is_empty();
+            em.case("filerow", json!([fmt, i % 3, lines, esyms, 3]), nt, &["exhaustive", "files"]);
+        }
+        let dsyms: Vec<Value> = vec![json!([0, 1]), json!([1, 3]), json!([0, 5])];
+        for data in all_seqs(&dsyms, 3) {
+            for wh in 0..(1 + fmt) {
+                let nt = !data.is_empty();
+                em.case("mockrow", json!([fmt, wh, data, [[0, 1], [1, 3], [0, 5]], 3]), nt, &["exhaustive", "files"]);
+            }
+        }
+        for n in sizes_upto(if thorough { 65537 } else { 4097 }) {
+            let mut sets: Vec<(i64, usize)> = vec![(0, 0), (3, 0), (4, 0)];
+            for p in boundary_positions(n, if n > 600 { 3 } else { 10 }) {
+                for mode in [1, 2, 5, 6] {
+                    sets.push((mode, p));
+                }
+            }
+            if n == 0 {
+                sets = vec![(0, 0), (4, 0)];
+            }
+            let sets: Vec<Value> = sets.iter().map(|(m, p)| json!([m, p])).collect();
+            let via_mock = n % 2;
+            let bl = [0usize, 1, 3, 64][n % 4];
+            em.case("filelong", json!([fmt, n % 3, n, bl, via_mock, sets]), n >= 2, &["long", "files"]);
+        }
+        if !thorough {
+            em.case("filelong", json!([fmt, 0, 65536, 0, 1, [[0, 0], [1, 65535], [5, 32768], [3, 0]]]), true, &["long", "files"]);
+        }
+    }
+    // records longer than an I/O buffer
+    for fmt in 0..2 {
+        em.case("mockrow", json!([fmt, 1, [[0, 8], [1, 1], [2, 8]], [[0, 8], [1, 1], [2, 8], [0, 1]], 3]), true, &["files", "long-record"]);
+    }
+    for _ in 0..(if thorough { 4000 } else { 300 }) {
+        let fmt = rng.below(2) as i64;
+        let eol = rng.below(3) as i64;
+        let n = rng.below(10) as usize;
+        let mut lines: Vec<Value> = Vec::new();
+        let mut expected: Vec<Value> = Vec::new();
+        if fmt == 1 && !rng.chance(1, 12) {
+            lines.push(json!(-4));
+        }
+        for _ in 0..n {
+            if rng.chance(1, 5) {
+                lines.push(json!(-1));
+            }
+            if rng.chance(1, 25) {
+                lines.push(json!(*rng.pick(&[-2i64, -3, -4])));
+            }
+            let r = json!([rng.range(0, 3), rng.range(0, 7)]);
+            lines.push(r.clone());
+            expected.push(r);
+        }
+        let how = rng.below(4);
+        mutate_vec(&mut rng, &mut expected, how, |r| json!([r.range(0, 3), r.range(0, 7)]));
+        em.case("filepair", json!([fmt, eol, lines, expected]), n >= 2, &["random", "files"]);
+    }
+
+    // 10. key-sorted / grouped assertion on typed keys and values (random)
+    for _ in 0..(if thorough { 4000 } else { 400 }) {
+        let aid = 2 + rng.below(2) as i64;
+        let tyid = 1 + rng.below(5) as i64;
+        let len = rng.below(8) as usize;
+        let mutate = rng.below(4);
+        if aid == 2 {
+            let a: Vec<(i64, i64)> = (0..len).map(|_| (rng.range(0, 2), rng.range(0, 2))).collect();
+            let mut b = a.clone();
+            shuffle(&mut rng, &mut b);
+            mutate_vec(&mut rng, &mut b, mutate, |r| (r.range(0, 2), r.range(0, 2)));
+            let ja: Vec<Value> = a.iter().map(|(k, v)| json!([k, v])).collect();
+            let jb: Vec<Value> = b.iter().map(|(k, v)| json!([k, v])).collect();
+            em.case("pairt", json!([aid, tyid, ja, jb]), len >= 2, &["random", "typed"]);
+        } else {
+            let a: Vec<(i64, Vec<i64>)> = (0..len.min(5))
+                .map(|i| {
+                    let vl = rng.below(4) as usize;
+                    (i as i64, (0..vl).map(|_| rng.range(0, 2)).collect())
+                })
+                .collect();
+            let mut b = a.clone();
+            shuffle(&mut rng, &mut b);
+            for g in &mut b {
+                shuffle(&mut rng, &mut g.1);
+            }
+            if mutate != 0 && !b.is_empty() {
+                let i = rng.below(b.len() as u64) as usize;
+                let mut vs = b[i].1.clone();
+                mutate_vec(&mut rng, &mut vs, mutate, |r| r.range(0, 2));
+                b[i].1 = vs;
+            }
+            let ja: Vec<Value> = a.iter().map(|(k, vs)| json!([k, vs])).collect();
+            let jb: Vec<Value> = b.iter().map(|(k, vs)| json!([k, vs])).collect();
+            em.case("pairt", json!([aid, tyid, ja, jb]), !a.is_empty(), &["random", "typed"]);
         }
     }
 }
